@@ -129,3 +129,32 @@ Proof.
     - assert ((b + 1) * nl <= r * nl) as H1 by (apply Z.mul_le_mono_nonneg_r; lia). lia. }
   subst b. split; [reflexivity|lia].
 Qed.
+
+(* ---- variants for guards without the `.max(k)` form: sound for every dimension >= 0 ---- *)
+
+Lemma rejects_all_ge_plain_sound : forall g d nl nr x,
+  rejects_all_ge g d && plain_rhs g = true -> 0 <= x < 9223372036854775808 -> fires g nl nr x = false -> x < dim_val d nl nr.
+Proof.
+  intros [k c o] d nl nr x Hr Hx Hf. apply andb_true_iff in Hr as [Hr Hp].
+  unfold rejects_all_ge in Hr. unfold plain_rhs in Hp. unfold fires in Hf. cbn [g_cast g_cmp g_rhs] in *.
+  assert (cast_eval k x = x) as Ec by (destruct k; cbn [cast_eval]; [reflexivity|apply usize_nonneg; lia]).
+  rewrite Ec in Hf.
+  destruct c, o as [z|d'|d' m]; try discriminate.
+  apply dim_eqb_eq in Hr. subst d'. cbn [cmp_eval operand_eval] in Hf. unfold Z.geb in Hf.
+  destruct (x ?= dim_val d nl nr) eqn:E; try discriminate. rewrite Z.compare_lt_iff in E. exact E.
+Qed.
+
+Lemma guard_sound_strict : forall gs d nl nr x,
+  covers_strict gs d = true -> 0 <= dim_val d nl nr < 9223372036854775808 ->
+  -9223372036854775808 <= x < 9223372036854775808 ->
+  accepted gs nl nr x = true -> 0 <= x < dim_val d nl nr.
+Proof.
+  intros gs d nl nr x Hc Hd Hx Ha. unfold covers_strict in Hc. apply andb_true_iff in Hc as [Hge Hneg].
+  apply existsb_exists in Hge as [g1 [Hin1 Hg1]]. apply existsb_exists in Hneg as [g2 [Hin2 Hg2]].
+  pose proof (accepted_forall _ _ _ _ Ha) as Hall.
+  assert (0 <= x) as Hnn by (apply (rejects_all_neg_sound g2 d nl nr x Hg2); [lia|lia|apply Hall; exact Hin2]).
+  split; [exact Hnn|]. apply (rejects_all_ge_plain_sound g1 d nl nr x Hg1); [lia|apply Hall; exact Hin1].
+Qed.
+
+Lemma accepted_app : forall a b nl nr x, accepted (a ++ b) nl nr x = accepted a nl nr x && accepted b nl nr x.
+Proof. intros. unfold accepted. rewrite existsb_app. apply negb_orb. Qed.
